@@ -8,6 +8,8 @@ META_EXCLUDE.add('node_call_id')
 META_EXCLUDE.add('node_sock')
 META_EXCLUDE.add('node_without_result')
 META_EXCLUDE.add('success_channels')
+# read by the dispatcher through getattr(), so not found by dir(Event())
+META_EXCLUDE.update(('cause', 'effects', 'complete_channels'))
 
 
 def load_event(s):
